@@ -1622,6 +1622,25 @@ func immutableStd(t types.Type) bool {
 	return false
 }
 
+func isBigNum(t types.Type) bool {
+	p, ok := t.(*types.Pointer)
+	if !ok {
+		return false
+	}
+	n, ok := p.Elem().(*types.Named)
+	if !ok || n.Obj().Pkg() == nil || n.Obj().Pkg().Path() != "math/big" {
+		return false
+	}
+	switch n.Obj().Name() {
+	case "Int", "Rat", "Float":
+		return true
+	}
+	return false
+}
+
+var bigObservers = map[string]bool{"Cmp": true, "CmpAbs": true, "Sign": true, "IsInt64": true, "IsUint64": true,
+	"Int64": true, "Uint64": true, "BitLen": true, "Bit": true, "String": true, "Text": true, "TrailingZeroBits": true}
+
 // inInit: the innermost function declaration around the node at the top of the stack is init()
 func inInit(stack []ast.Node) bool {
 	for i := len(stack) - 1; i >= 0; i-- {
@@ -1637,7 +1656,8 @@ func inInit(stack []ast.Node) bool {
 
 func (an *analysis) readOnlyVar1(o types.Object) bool {
 	immutable := immutableStd(o.Type())
-	if o.Exported() || !(plainBytes(o.Type()) || immutable) || o.Pkg() == nil {
+	bigNum := isBigNum(o.Type())
+	if o.Exported() || !(plainBytes(o.Type()) || immutable || bigNum) || o.Pkg() == nil {
 		return false
 	}
 	lp := an.l.pkgs[o.Pkg().Path()]
@@ -1697,6 +1717,24 @@ func (an *analysis) readOnlyVar1(o types.Object) bool {
 						return true // initialised in init()
 					}
 				}
+			}
+			if bigNum {
+				// math/big: a method changes its receiver only and reads its operands.  The variable
+				// stays a constant while it is an operand, or the receiver of an observer.
+				if call, isCall := stack[i].(*ast.CallExpr); isCall && call.Fun != cur {
+					if sel, isSel := unparen(call.Fun).(*ast.SelectorExpr); isSel {
+						if tv, has := lp.info.Types[sel.X]; has && isBigNum(tv.Type) {
+							return true
+						}
+					}
+				}
+				if sel, isSel := stack[i].(*ast.SelectorExpr); isSel && sel.X == cur && i > 0 {
+					if call, isCall := stack[i-1].(*ast.CallExpr); isCall && call.Fun == ast.Expr(sel) && bigObservers[sel.Sel.Name] {
+						return true
+					}
+				}
+				ok = false
+				return true
 			}
 			if immutable {
 				// only a new value (outside init) or its address being taken makes it state
